@@ -7,7 +7,11 @@
 //!  * `stack`  — the whole pipeline: system dictionary compiled by the real `DictBuilder`, 0..15 user dictionaries
 //!               compiled against the loaded system dictionary, OOV plugins registering POS (`userPOS`), the real
 //!               `JapaneseDictionary::from_cfg_storage`, every word's info through `LexiconSet::get_word_info`,
-//!               and the morphemes (plus their A/B splits) of a few texts.
+//!               and the morphemes (plus their A/B splits) of a few texts — in about half of the cases on RECYCLED
+//!               objects (one tokenizer, one morpheme list, two split lists that analysed other texts before);
+//!               load order: InhibitConnection plugins, rows stored with cost i16::MIN (re-estimated by
+//!               `Lexicon::update_cost` over the dictionary as it is when that user dictionary is merged), the cost of
+//!               every word and the inhibited cells after the load.
 //! Strings are interned per case (the model only compares them).
 use crate::common::*;
 use crate::dict::*;
@@ -369,6 +373,102 @@ fn observe(dic: &JapaneseDictionary, text: &str) -> Result<Result<Observed, Stri
     })
 }
 
+/// A long-lived analyser: ONE `StatefulTokenizer` and ONE `MorphemeList` (plus the two lists the A/B splits are written to)
+/// used for every text of a case, the way a server keeps them.  `collect_results` swaps the tokenizer's buffers with the
+/// list's, so what an analysis finds in the tokenizer is what the call BEFORE LAST left in the list.
+struct Recycled<'a> {
+    tok: StatefulTokenizer<&'a JapaneseDictionary>,
+    ml: MorphemeList<&'a JapaneseDictionary>,
+    sa: MorphemeList<&'a JapaneseDictionary>,
+    sb: MorphemeList<&'a JapaneseDictionary>,
+    /// what the objects went through, for the failure message
+    log: Vec<String>,
+}
+
+impl<'a> Recycled<'a> {
+    fn new(dic: &'a JapaneseDictionary) -> Recycled<'a> {
+        let ml = MorphemeList::empty(dic);
+        let sa = ml.empty_clone();
+        let sb = ml.empty_clone();
+        Recycled { tok: StatefulTokenizer::new(dic, Mode::C), ml, sa, sb, log: vec![] }
+    }
+
+    /// 1-4 other analyses on the same objects before the text under test: longer and shorter texts, the empty text, a text
+    /// that is rejected (too long), other modes, analyses whose result is never collected, splits left in the split lists
+    fn warm_up(&mut self, rng: &mut Rng, text: &str, pool: &[String]) {
+        let n = rng.range(1, 4);
+        for _ in 0..n {
+            let kind = rng.below(8);
+            let t: String = match kind {
+                0 => String::new(),
+                1 => "a".repeat(49150 + rng.below(3)),                       // rejected: InputTooLong
+                2 => { let cs: Vec<char> = text.chars().collect(); cs[..rng.below(cs.len() + 1)].iter().collect() } // shorter (a prefix)
+                3 => { let mut l = text.to_string(); for _ in 0..rng.range(1, 6) { l.push_str(rng.pick(pool).as_str()); } l } // longer, same start
+                4 => { let mut l = String::new(); for _ in 0..rng.range(3, 12) { l.push_str(rng.pick(pool).as_str()); } l }   // longer, unrelated
+                5 => rng.pick(pool).clone(),
+                6 => { let mut l = rng.pick(pool).clone(); l.push_str(text); l }                                     // same end, shifted
+                _ => rng.pick(OOV_CHUNKS).to_string(),
+            };
+            let mode = *rng.pick(&[Mode::C, Mode::C, Mode::A, Mode::B]);
+            let collect = !rng.chance(1, 5);
+            let splits = rng.chance(1, 2);
+            let r = catch(|| -> Result<usize, String> {
+                self.tok.set_mode(mode);
+                self.tok.reset().push_str(&t);
+                self.tok.do_tokenize().map_err(|e| err_class(&e))?;
+                if collect {
+                    self.ml.collect_results(&mut self.tok).map_err(|e| err_class(&e))?;
+                    if splits {
+                        for m in self.ml.iter() {
+                            self.sa.clear(); self.sb.clear();
+                            let _ = m.split_into(Mode::A, &mut self.sa);
+                            let _ = m.split_into(Mode::B, &mut self.sb);
+                        }
+                    }
+                }
+                Ok(self.ml.len())
+            });
+            let shown: String = if t.len() > 40 { format!("<{} bytes>", t.len()) } else { t.clone() };
+            self.log.push(format!("{:?}/{:?}/{}{}", shown, mode, if collect { "collected" } else { "left" },
+                match &r { Ok(Ok(_)) => String::new(), Ok(Err(e)) => format!("/{}", e), Err(_) => "/PANIC".into() }));
+        }
+    }
+
+    fn observe(&mut self, text: &str) -> Result<Result<Observed, String>, String> {
+        self.log.push(format!("{:?}", text));
+        catch(|| {
+            self.tok.set_mode(Mode::C);
+            self.tok.reset().push_str(text);
+            self.tok.do_tokenize().map_err(|e| err_class(&e))?;
+            self.ml.collect_results(&mut self.tok).map_err(|e| err_class(&e))?;
+            let mut out = vec![];
+            for m in self.ml.iter() {
+                self.sa.clear();
+                self.sb.clear();
+                let ra = m.split_into(Mode::A, &mut self.sa).map_err(|e| err_class(&e))?;
+                let rb = m.split_into(Mode::B, &mut self.sb).map_err(|e| err_class(&e))?;
+                let va: Vec<MObs> = if ra { self.sa.iter().map(|x| mobs(&x)).collect() } else { vec![] };
+                let vb: Vec<MObs> = if rb { self.sb.iter().map(|x| mobs(&x)).collect() } else { vec![] };
+                out.push((mobs(&m), va, vb));
+            }
+            Ok(out)
+        })
+    }
+}
+
+fn same_observed(a: &Result<Result<Observed, String>, String>, b: &Result<Result<Observed, String>, String>) -> bool {
+    let key = |m: &MObs| (m.raw, m.did, m.pos_id, m.pos.clone(), m.norm.clone(), m.surface.clone());
+    match (a, b) {
+        (Ok(Ok(x)), Ok(Ok(y))) => x.len() == y.len() && x.iter().zip(y.iter()).all(|(p, q)| {
+            key(&p.0) == key(&q.0) && p.1.iter().map(key).collect::<Vec<_>>() == q.1.iter().map(key).collect::<Vec<_>>()
+                && p.2.iter().map(key).collect::<Vec<_>>() == q.2.iter().map(key).collect::<Vec<_>>()
+        }),
+        (Ok(Err(x)), Ok(Err(y))) => x == y,
+        (Err(_), Err(_)) => true,
+        _ => false,
+    }
+}
+
 #[derive(Clone, Debug)]
 struct WObs {
     pos_id: u16,
@@ -410,7 +510,7 @@ fn build_kind(e: &str) -> String {
 
 fn load_kind(e: &str) -> String {
     if e.starts_with("PANIC") { return "PANIC:Load".into(); }
-    for (pat, k) in [("TooManyDictionaries", "TooManyDictionaries"), ("InvalidPartOfSpeech", "InvalidPos")] {
+    for (pat, k) in [("TooManyDictionaries", "TooManyDictionaries"), ("InvalidPartOfSpeech", "InvalidPos"), ("InvalidDataFormat", "InvalidData"), ("EosBosDisconnect", "Disconnect")] {
         if e.contains(pat) { return format!("err:Load:{}", k); }
     }
     format!("err:Load:Other({})", e.chars().take(80).collect::<String>())
@@ -447,6 +547,8 @@ struct Stack {
     n_ids: usize,
     matrix: Matrix,
     texts: Vec<String>,
+    /// `inhibitPair` lists, one per configured InhibitConnectionPlugin
+    conn: Vec<Vec<(usize, usize)>>,
 }
 
 /// the smallest instance of finding P1: system POS {P0}, fallback provider registering X (userPOS allow), one user
@@ -465,7 +567,7 @@ fn minimal_p1(rng: &mut Rng) -> Stack {
         json: vec![format!(r#"{{"class":"com.worksap.nlp.sudachi.SimpleOovPlugin","oovPOS":{},"leftId":0,"rightId":0,"cost":9000,"userPOS":"allow"}}"#, pos_json(&x))],
         calls: vec![(true, x)], unk: None,
     };
-    Stack { sys, users: vec![user], plug, base_plug: true, n_ids: 2, matrix: Matrix::random(rng, 2, 2, false), texts: vec!["あいう".into(), "い".into()] }
+    Stack { sys, users: vec![user], plug, base_plug: true, n_ids: 2, matrix: Matrix::random(rng, 2, 2, false), texts: vec!["あいう".into(), "い".into()], conn: vec![] }
 }
 
 fn gen_stack(rng: &mut Rng, directed: Option<usize>) -> Stack {
@@ -503,7 +605,7 @@ fn gen_stack(rng: &mut Rng, directed: Option<usize>) -> Stack {
     let plug = gen_plugins(rng, n_ids, &known, sabotage, quiet);
     // user POS: a few shared "new" POS so that the dictionaries overlap with each other and with the plugins
     let shared: Vec<usize> = (0..rng.range(1, 3)).map(|_| rng.range(0, POOL.len() - 1)).collect();
-    let mut users = vec![];
+    let mut users: Vec<GDict> = vec![];
     for u in 0..nusers {
         let mut choices = shared.clone();
         choices.push(*rng.pick(&known));
@@ -531,7 +633,38 @@ fn gen_stack(rng: &mut Rng, directed: Option<usize>) -> Stack {
         }
         texts.push(s);
     }
-    Stack { sys, users, plug, base_plug, n_ids, matrix, texts }
+    // load order: connection-cost plugins (cells inhibited BEFORE the user dictionaries are merged) and rows whose stored cost
+    // i16::MIN asks for an estimate at load time (update_cost, on the dictionary as it is when that user dictionary is merged)
+    let mut sys = sys;
+    let mut conn: Vec<Vec<(usize, usize)>> = vec![];
+    let lo = directed.is_none() || matches!(directed, Some(1) | Some(5));
+    if lo && rng.chance(1, 2) {
+        for _ in 0..rng.range(1, 2) {
+            let mut pairs = vec![];
+            for _ in 0..rng.below(4) { pairs.push((rng.below(n_ids), rng.below(n_ids))); }
+            if directed.is_none() && rng.chance(1, 40) { let k = rng.below(2); pairs.push(if k == 0 { (n_ids, 0) } else { (0, n_ids + rng.below(3)) }); }
+            conn.push(pairs);
+        }
+    }
+    if lo && !users.is_empty() && (directed.is_some() || rng.chance(1, 2)) {
+        let nd = rng.range(1, 2);
+        for _ in 0..nd {
+            let u = match rng.below(4) { 0 => 0, 1 => users.len() - 1, _ => rng.below(users.len()) };
+            let nr = users[u].rows.len();
+            for _ in 0..rng.range(1, 2) {
+                let w = rng.below(nr);
+                users[u].rows[w].row.cost = -32768;
+                if rng.chance(1, 4) {
+                    // a headword made of 2-4 copies of a system word with an extreme cost: the estimate leaves the i16 range (clamp)
+                    let sw = rng.below(sys.rows.len());
+                    sys.rows[sw].row.cost = if rng.chance(1, 2) { 14000 + rng.below(18768) as i32 } else { -(14000 + rng.below(18768) as i32) };
+                    users[u].rows[w].row.headword = sys.rows[sw].row.surface.repeat(rng.range(2, 4));
+                }
+            }
+        }
+        if rng.chance(1, 10) { let w = rng.below(sys.rows.len()); sys.rows[w].row.cost = -32768; }
+    }
+    Stack { sys, users, plug, base_plug, n_ids, matrix, texts, conn }
 }
 
 /// which `DictBuilder::new_user` / `LexiconReader::preload_pos` the tree has (the model's `PreVariant`):
@@ -566,7 +699,11 @@ fn run_stack(run: &mut Run, idx: usize, rng: &mut Rng, directed: Option<usize>) 
     let k = st.users.len();
     let wd = Workdir::new(&format!("c12-{}", idx));
     if let Some(u) = &st.plug.unk { wd.write("unk_c12.def", u); }
-    let cfg = config_json(&wd, &[], &st.plug.json, &[], &[]);
+    let conn_json: Vec<String> = st.conn.iter().map(|pl| format!(
+        r#"{{"class":"com.worksap.nlp.sudachi.InhibitConnectionPlugin","inhibitPair":[{}]}}"#,
+        pl.iter().map(|(l, r)| format!("[{},{}]", l, r)).collect::<Vec<_>>().join(","))).collect();
+    let cfg = config_json(&wd, &[], &st.plug.json, &[], &conn_json);
+    let n_pairs: usize = st.conn.iter().map(|p| p.len()).sum();
     // the configuration the user builder's base dictionary is loaded with when base=sys: one fallback provider with a system POS
     let base_cfg = config_json(&wd, &[], &[format!(
         r#"{{"class":"com.worksap.nlp.sudachi.SimpleOovPlugin","oovPOS":{},"leftId":0,"rightId":0,"cost":30000}}"#,
@@ -577,7 +714,15 @@ fn run_stack(run: &mut Run, idx: usize, rng: &mut Rng, directed: Option<usize>) 
     let sys_wire = dict_wire(&st.sys, &sys_cx, &mut it);
     let plug_wire = st.plug.calls.iter().map(|(a, p)| format!("{}:{}", if *a { "a" } else { "f" }, it.pos(p))).collect::<Vec<_>>().join(";");
     let users_wire = st.users.iter().map(|u| dict_wire(u, &user_cx, &mut it)).collect::<Vec<_>>().join("|");
-    let payload_head = format!("sysrows={} plug={} base={} pre={} users={}", sys_wire, plug_wire, if st.base_plug { "plug" } else { "sys" }, impl_pre_variant(), users_wire);
+    let inh_wire = if st.conn.is_empty() { "-".to_string() } else {
+        st.conn.iter().map(|pl| pl.iter().map(|(l, r)| format!("{}.{}", l, r)).collect::<Vec<_>>().join(",")).collect::<Vec<_>>().join("|") };
+    let costs_wire = std::iter::once(&st.sys).chain(st.users.iter())
+        .map(|d| d.rows.iter().map(|r| r.row.cost.to_string()).collect::<Vec<_>>().join(",")).collect::<Vec<_>>().join("|");
+    let payload_head = format!("sysrows={} plug={} base={} pre={} users={} dim={} inh={} costs={}", sys_wire, plug_wire,
+        if st.base_plug { "plug" } else { "sys" }, impl_pre_variant(), users_wire, st.n_ids, inh_wire, costs_wire);
+    run.bump(&format!("stack:connplugins:{}", st.conn.len()));
+    let n_min: usize = st.users.iter().map(|u| u.rows.iter().filter(|r| r.row.cost == -32768).count()).sum();
+    run.bump(&format!("stack:min-cost-rows:{}", n_min.min(4)));
     run.bump(&format!("stack:users:{}", k));
     run.bump(&format!("stack:plugcalls:{}", st.plug.calls.len()));
     run.bump(if st.base_plug { "stack:base:plug" } else { "stack:base:sys" });
@@ -619,6 +764,31 @@ fn run_stack(run: &mut Run, idx: usize, rng: &mut Rng, directed: Option<usize>) 
         }
     }
     drop(base);
+    // what update_cost must see: the headword of every i16::MIN row of user dictionary j+1 analysed (NEW tokenizer, new list) over
+    // the really loaded dictionary made of the system dictionary, the whole plugin configuration and the first j user dictionaries
+    let mut est: HashMap<(usize, usize), Result<(i32, usize), String>> = HashMap::new();   // (user index, row) -> internal cost, morphemes
+    let mut est_wire: Vec<String> = vec![];
+    for (j, u) in st.users.iter().enumerate() {
+        if !u.rows.iter().any(|r| r.row.cost == -32768) { continue; }
+        let prefix = match load(&cfg, system.clone(), bins[..j].to_vec()) { Ok(d) => d, Err(_) => break };
+        for (w, r) in u.rows.iter().enumerate() {
+            if r.row.cost != -32768 { continue; }
+            let m = catch(|| -> Result<(i32, usize), String> {
+                let mut tok = StatefulTokenizer::create(&prefix, false, Mode::C);
+                tok.reset().push_str(&r.row.headword);
+                tok.do_tokenize().map_err(|e| err_class(&e))?;
+                let mut ml = MorphemeList::empty(&prefix);
+                ml.collect_results(&mut tok).map_err(|e| err_class(&e))?;
+                Ok((ml.get_internal_cost(), ml.len()))
+            });
+            let m = match m { Ok(x) => x, Err(p) => Err(format!("PANIC {}", p)) };
+            est_wire.push(format!("{}.{}.{}:{}", j + 1, n_pairs, it.tok(&r.row.headword),
+                match &m { Ok((c, n)) => format!("{}.{}", c, n), Err(_) => "E".into() }));
+            est.insert((j, w), m);
+        }
+    }
+    est_wire.sort(); est_wire.dedup();
+    let payload_head = format!("{} est={}", payload_head, est_wire.join(";"));
     let loaded = load(&cfg, system.clone(), bins);
     let dic = match loaded {
         Ok(d) => d,
@@ -632,6 +802,14 @@ fn run_stack(run: &mut Run, idx: usize, rng: &mut Rng, directed: Option<usize>) 
             } else if ans == "err:Load:InvalidPos" {
                 let expected = st.plug.calls.iter().any(|(a, p)| p.len() != 6 || !*a);
                 if !expected { run.fail(idx, "load:pos-refused", &format!("load failed with an InvalidPartOfSpeech although every plugin POS is allowed | {}", desc)); }
+            } else if ans == "err:Load:InvalidData" {
+                if !st.conn.iter().flatten().any(|(l, r)| *l >= st.n_ids || *r >= st.n_ids) {
+                    run.fail(idx, "load:pairs-refused", &format!("load failed with InvalidDataFormat although every inhibitPair is inside the matrix | {}", desc));
+                }
+            } else if ans == "err:Load:Disconnect" {
+                if !est.values().any(|m| m.is_err()) {
+                    run.fail(idx, "load:estimate-failed", &format!("load failed with EosBosDisconnect although every i16::MIN headword is analysable over its prefix dictionary | {}", desc));
+                }
             } else {
                 run.fail(idx, "load:unexpected-error", &format!("{} | {}", e, desc));
             }
@@ -669,8 +847,33 @@ fn run_stack(run: &mut Run, idx: usize, rng: &mut Rng, directed: Option<usize>) 
     let mut observed: Vec<(String, Result<Result<Observed, String>, String>)> = vec![];
     let mut wids: Vec<String> = vec![];
     let mut mans: Vec<String> = vec![];
+    // about half of the cases analyse on RECYCLED objects (one tokenizer + one morpheme list that went through 1-4 other
+    // analyses before each text); the expected answer is the same: the property does not depend on history
+    let mut hrng = Rng::for_case(run.opts.seed ^ 0x5ec1_c1ed, idx);
+    let recycled = hrng.chance(1, 2);
+    run.bump(if recycled { "stack:analyser:recycled" } else { "stack:analyser:fresh" });
+    let mut pool: Vec<String> = vec![];
+    for gd in dicts.iter() { for r in gd.rows.iter() { pool.push(r.row.surface.clone()); } }
+    for c in OOV_CHUNKS { pool.push(c.to_string()); }
+    let mut rec = if recycled { Some(Recycled::new(&dic)) } else { None };
+    let mut history_diff: Option<String> = None;
     for t in &st.texts {
-        let o = observe(&dic, t);
+        let o = match rec.as_mut() {
+            Some(r) => {
+                r.warm_up(&mut hrng, t, &pool);
+                let o = r.observe(t);
+                if history_diff.is_none() {
+                    let fresh = observe(&dic, t);
+                    if !same_observed(&o, &fresh) {
+                        history_diff = Some(format!("text {:?} after [{}]: recycled objects give {:?}, new objects {:?}", t, r.log.join(" ; "),
+                            o.as_ref().map(|x| x.as_ref().map(|ms| ms.iter().map(|m| (m.0.surface.clone(), m.0.did, m.0.pos_id)).collect::<Vec<_>>())),
+                            fresh.as_ref().map(|x| x.as_ref().map(|ms| ms.iter().map(|m| (m.0.surface.clone(), m.0.did, m.0.pos_id)).collect::<Vec<_>>()))));
+                    }
+                }
+                o
+            }
+            None => observe(&dic, t),
+        };
         if let Ok(Ok(ms)) = &o {
             for (m, sa, sb) in ms {
                 for x in std::iter::once(m).chain(sa.iter()).chain(sb.iter()) {
@@ -682,8 +885,12 @@ fn run_stack(run: &mut Run, idx: usize, rng: &mut Rng, directed: Option<usize>) 
         }
         observed.push((t.clone(), o));
     }
+    let cost_obs: Vec<Vec<Option<i16>>> = dicts.iter().enumerate().map(|(d, gd)| (0..gd.rows.len()).map(|w|
+        catch(|| dic.lexicon().get_word_param(WordId::new(d as u8, w as u32)).2).ok()).collect()).collect();
+    let inh_obs: usize = st.conn.iter().flatten().filter(|(l, r)| catch(|| dic.grammar().connect_cost(*l as i16, *r as i16)).ok() == Some(i16::MAX)).count();
     let payload = format!("{} wids={}", payload_head, wids.join(","));
-    let ans = format!("ok pos={} words={} m={}", pos_wire, word_lines.join(";"), mans.join(";"));
+    let ans = format!("ok pos={} words={} m={} cost={} inh={}", pos_wire, word_lines.join(";"), mans.join(";"),
+        cost_obs.iter().map(|v| v.iter().map(|c| match c { Some(c) => c.to_string(), None => "PANIC".into() }).collect::<Vec<_>>().join(",")).collect::<Vec<_>>().join("|"), inh_obs);
     let own_pos_used = st.users.iter().any(|u| u.rows.iter().any(|r| !st.sys.rows.iter().any(|s| s.row.pos == r.row.pos)));
     run.case(idx, "stack", &payload, &ans, k >= 1 && own_pos_used);
 
@@ -736,6 +943,34 @@ fn run_stack(run: &mut Run, idx: usize, rng: &mut Rng, directed: Option<usize>) 
             }
         }
     }
+    // stored costs are reported as declared; an i16::MIN cost of a USER dictionary row is replaced at load time by the estimate taken
+    // over the dictionary as it was when that dictionary was merged (all connection edits applied, earlier user dictionaries only)
+    if inh_obs != n_pairs {
+        run.fail(idx, "conn:inhibited", &format!("{} of the {} configured inhibitPair cells read INHIBITED_CONNECTION after the load | {}", inh_obs, n_pairs, desc));
+    }
+    'costs: for (d, gd) in dicts.iter().enumerate() {
+        for (w, r) in gd.rows.iter().enumerate() {
+            let got = cost_obs[d][w];
+            if d == 0 || r.row.cost != -32768 {
+                if got != Some(r.row.cost as i16) {
+                    run.fail(idx, &format!("cost:declared{}", sfx), &format!("dictionary {} word {} ({}): cost {:?}, declared {} | {}", d, w, r.row.surface, got, r.row.cost, desc));
+                    break 'costs;
+                }
+            } else {
+                match est.get(&(d - 1, w)) {
+                    Some(Ok((ic, n))) => {
+                        let want = (*ic as i64 - 20 * *n as i64).clamp(i16::MIN as i64, i16::MAX as i64) as i16;
+                        run.bump("cost:estimated");
+                        if got != Some(want) {
+                            run.fail(idx, &format!("cost:estimated{}", sfx), &format!("dictionary {} word {} ({}, stored cost i16::MIN): cost {:?} after the load; its headword over the system dictionary + plugins + the first {} user dictionaries costs {} in {} morphemes, i.e. {} | {}", d, w, r.row.headword, got, d - 1, ic, n, want, desc));
+                            break 'costs;
+                        }
+                    }
+                    _ => { run.fail(idx, "harness:estimate-missing", &format!("dictionary {} word {}: loaded although no estimate could be measured | {}", d, w, desc)); break 'costs; }
+                }
+            }
+        }
+    }
     // system words unaffected by the user dictionaries
     if k > 0 {
         match load(&cfg, system, vec![]) {
@@ -747,7 +982,8 @@ fn run_stack(run: &mut Run, idx: usize, rng: &mut Rng, directed: Option<usize>) 
                     let same = match (&a, b) {
                         (Ok(Ok(x)), Some(y)) => x.pos_id == y.pos_id && x.a == y.a && x.b == y.b && x.w == y.w && x.surface == y.surface
                             && x.norm == y.norm && x.reading == y.reading && x.hwlen == y.hwlen
-                            && ppos.get(x.pos_id as usize) == pos_list.get(y.pos_id as usize),
+                            && ppos.get(x.pos_id as usize) == pos_list.get(y.pos_id as usize)
+                            && catch(|| plain.lexicon().get_word_param(WordId::new(0, w as u32))).ok() == catch(|| dic.lexicon().get_word_param(WordId::new(0, w as u32))).ok(),
                         _ => false,
                     };
                     if !same {
@@ -818,6 +1054,9 @@ fn run_stack(run: &mut Run, idx: usize, rng: &mut Rng, directed: Option<usize>) 
                 }
             }
         }
+    }
+    if let Some(h) = history_diff {
+        run.fail(idx, &format!("morph:history{}", sfx), &format!("{} | {}", h, desc));
     }
     let _ = tag_of_raw;
 }
@@ -1072,7 +1311,9 @@ pub fn run(run: &mut Run) {
 structure use U-prefixed, numeric and inline references into the own and the system dictionary; POS drawn from a pool of 12 so that \
 user-defined POS overlap between dictionaries, with plugin-registered POS and with system POS) compiled by the real DictBuilder, \
 0-2 extra OOV plugins (regex / MeCab with 1-3 unk.def lines / simple) + a fallback, userPOS allow|forbid, loaded by from_cfg_storage; \
-every word through LexiconSet::get_word_info and 2-3 texts tokenised in mode C with split_into A and B; \
+every word through LexiconSet::get_word_info and 2-3 texts tokenised in mode C with split_into A and B \
+(about half of the cases on one recycled StatefulTokenizer + MorphemeList + split lists that analysed 1-4 other texts before each text: empty, too long, longer, shorter, other modes, uncollected); \
+load order: 0-2 InhibitConnection plugins, rows stored with cost i16::MIN whose estimate is measured on the really loaded prefix dictionary, word costs and inhibited cells observed after the load; \
 lexset: LexiconSet::new/append/lookup/get_word_info on 1..17 real lexicons with arbitrary POS offsets; wid: WordId packing at the 4/28-bit \
 boundaries; grammar: get_part_of_speech_id / register_pos called directly (handle_user_pos is crate-private: reached through the plugins of the stack cases) on a real Grammar (POS of 5, 6, 7 components). non-trivial = stack with >= 1 user dictionary using a POS the system dictionary does not have, lexset with >= 1 appended \
 lexicon, every wid; distinct by line".into();
